@@ -29,7 +29,7 @@ I64 = (-(2 ** 63), 2 ** 63 - 1)
 
 def bounds(tier):
     return {"patterns": "all onto assignments of <=3 cells 1-D (quick) / <=4 cells 1-D and 2x2 with <=3 classes (thorough), plus large patterns with 5-6 classes over 20 and 96 cells (both construction strategies, both sides of the strategy switch)",
-            "options": "common omitted/present/absent x counts supplied or not x mapping none/injective/many-to-one (incl. onto the common) x way back default dtype/explicit dtype/mapping",
+            "options": "common omitted/present/absent x counts supplied (keys ascending, reversed or rotated) or not x mapping none/injective/many-to-one (incl. onto the common) x way back default dtype/explicit dtype/mapping",
             "magnitudes": "all of int64 (solver variables)"}
 
 
@@ -101,6 +101,14 @@ def configs(tier, seed):
             if tier == "quick" and (i % 4) and not (mapping == "m2o" and back == "dtype") and not (common == "absent" and mapping == "none" and back == "dtype" and not counts):
                 continue
             out.append(dict(shape=shape, pattern=pat, k=k, common=common, counts=counts, mapping=mapping, back=back))
+    # caller-supplied counts whose keys are NOT in ascending order (a Counter, first-appearance order): every strategy
+    for shape, pat, k in large + [([3], [0, 1, 2], 3), ([7], [2, 0, 2, 1, 2, 0, 1], 3), ([2, 2], [0, 1, 2, 0], 3)]:
+        for corder in ("rev", "rot"):
+            for common, mapping, back in (("omit", "none", "default"), ("present", "none", "dtype"), ("absent", "inj", "default"), ("omit", "m2o", "dtype")):
+                i += 1
+                if tier == "quick" and len(pat) > 8 and (i % 2) and not (common == "omit" and mapping == "none"):
+                    continue
+                out.append(dict(shape=shape, pattern=pat, k=k, common=common, counts=True, mapping=mapping, back=back, corder=corder))
     # caller-supplied counts and common value given as NumPy scalars (what numpy.unique(..., return_counts=True) hands out)
     for shape, pat, k in (([3], [0, 1, 0], 2), ([2, 2], [0, 1, 1, 0], 2)):
         for common in ("present", "omit"):
@@ -170,7 +178,12 @@ def explore(cfg, eng, ctx, only=None):
         final = (lambda i: target_of(i)) if target_of else (lambda i: d[i])
         counts = None
         if cfg["counts"]:
-            counts = {SKey(d[i]): pat.count(i) for i in range(k)}
+            order = list(range(k))
+            if cfg.get("corder") == "rev":
+                order.reverse()
+            elif cfg.get("corder") == "rot":
+                order = order[1:] + order[:1]
+            counts = {SKey(d[i]): pat.count(i) for i in order}
         if cfg.get("npkeys"):
             # the same values as NumPy int64 scalars
             np_ = lambda key: snp.mkscalar(key, rnp.dtype(rnp.int64))
@@ -189,7 +202,7 @@ def explore(cfg, eng, ctx, only=None):
         def builder(model):
             ev = lambda t: model.eval(t, model_completion=True).as_long()
             return dict(kind="roundtrip", shape=list(shape), pattern=pat, d=[ev(x) for x in d], common=None if common_t is None else ev(common_t),
-                        npkeys=bool(cfg.get("npkeys")), counts=cfg["counts"], mapping=None if mapping is None else [[ev(it(a)), ev(it(b))] for a, b in mapping.items()],
+                        npkeys=bool(cfg.get("npkeys")), counts=cfg["counts"], corder=cfg.get("corder"), mapping=None if mapping is None else [[ev(it(a)), ev(it(b))] for a, b in mapping.items()],
                         back=cfg["back"], u=[ev(u) for u in uvars])
         ctx.case_builder = builder
         try:
